@@ -8,7 +8,10 @@
    obs   one dump per executed op:
          (0 oldest newest dirtiesSize childrenSize size ((id parents (ext sorted) prev next) ...) (disk id ...))
          nodes and disk in the order of the world list;  (1) = nil dereference panic (run stops),
-         (2) = out of fuel. *)
+         (2) = out of fuel.
+   Canonicalisation (both sides): [newest] is reported as 0 when the list is empty and
+   flushPrev of the head as 0 — the Go code leaves stale values there which depend on the
+   iteration order of the [external] Go map (the code never reads them). *)
 From GV Require Import Lib.Sx Storage.HashDB.
 From Coq Require Import FMapPositive.
 
@@ -58,10 +61,10 @@ Fixpoint ins_sorted (x : N) (l : list N) : list N :=
 Definition sort_N (l : list N) : list N := fold_right ins_sorted [] l.
 
 Definition dump (cns : Z) (ids : list N) (st : db) : sx :=
-  SL [ SI 0%Z; sn (oldest st); sn (newest st); SI (dsize st); SI (csize st); SI (Size cns st);
+  SL [ SI 0%Z; sn (oldest st); sn (if (oldest st =? 0)%N then 0%N else newest st); SI (dsize st); SI (csize st); SI (Size cns st);
        SL (flat_map (fun h => match getd st h with
                               | Some e => [SL [sn h; sn (e_parents e); SL (map sn (sort_N (e_ext e)));
-                                               sn (e_prev e); sn (e_next e)]]
+                                               sn (if (h =? oldest st)%N then 0%N else e_prev e); sn (e_next e)]]
                               | None => []
                               end) ids);
        SL (flat_map (fun h => match mget h (disk st) with Some _ => [sn h] | None => [] end) ids) ].
